@@ -194,6 +194,7 @@ func GenChildTpl(c *vs.Case, resource string, selLabels map[string]string, clust
 		tpl.ExplicitNS = c.Prob(1, 3)
 	}
 	tpl.Fields = GenChildFields(c, resource)
+	tpl.EchoAnnotations = c.Prob(1, 6)
 	return tpl
 }
 
